@@ -10,7 +10,12 @@ Space (every member is visited, nothing sampled)
   prefix  : directed family for factorization (models.grammar.family_prefix): common prefixes of length
             1-3 starting with a terminal or a non-terminal, 2-7 remainders (crossing the "more than 5
             alternatives" rule of smart factorization), nested common prefixes, nullable remainders.
-  x both smart_factorization settings x all token strings of length <= L over the configuration's tokens.
+  x both smart_factorization settings x all token strings of length <= L over the configuration's tokens
+  x (sized and split spaces) every non-terminal handed to parse as ``start_symbol_name`` -- the public
+    start-symbol override; the tree must then be a derivation from *that* symbol.  A ParsingError for an
+    override is never judged (FOLLOW sets belong to the constructor's start symbol).  The spaces contain
+    symbols that are nullable only through their children (no empty alternative of their own) at the end
+    of the text; returned trees with such a node are counted.
 
 Oracle: models.grammar.validate_tree on every tree returned by parse(do_cleanup=False): root = start
 symbol, every inner node with its child names is a user production, childless node <=> empty production,
@@ -34,7 +39,8 @@ LEVEL_NOTE = ("Small-scope: more than 3 non-terminals, alternatives longer than 
               "longer than the bound, span tokens and production templates are not covered. Trusted: "
               "models/grammar.validate_tree; the harness knows the tokens because it builds the text.")
 RULE = ("case = one grammar: constructed in both factorization modes, every token string up to the length "
-        "bound parsed in each accepted mode, every returned tree validated. Distinct by construction "
+        "bound parsed in each accepted mode (and again from every other non-terminal as overridden start "
+        "symbol), every returned tree validated. Distinct by construction "
         "(distinct alternative lists). Non-trivial: some validated parse rolled back at least once, went "
         "through a retained factorization suffix symbol, or contains an empty-production node.")
 ASSUMPTIONS = [
@@ -49,7 +55,9 @@ REQUIRED_FEATURES = ["grammar:nullable", "grammar:ambiguous-table", "grammar:com
                      "grammar:nested-common-prefix", "grammar:suffix-retained-in-smart-mode",
                      "grammar:modes-differ-in-productions", "cfg:keywords-synonyms",
                      "parse:tree", "parse:ParsingError", "parse:rollback", "parse:through-suffix-symbol",
-                     "tree:empty-production-node", "mode:smart", "mode:full"]
+                     "tree:empty-production-node", "mode:smart", "mode:full",
+                     "start-override:returned-tree", "start-override:ParsingError",
+                     "start-override:nullable-by-chain-at-end"]
 
 _SPACES = {
     # (kind, non-terminals, cfg key, max_alts, max_len, max_size, input length, shards)
@@ -86,7 +94,8 @@ def bounds(tier):
                         "grammars": sum(1 for _ in G.family_prefix(cfg.terms, full=(tier == "thorough"))),
                         "input_len_max": L, "inputs_per_mode": len(G.all_inputs(cfg, L))})
     return {"spaces": out, "modes": ["smart_factorization=True", "smart_factorization=False"],
-            "start_symbol": "E"}
+            "start_symbol": "E",
+            "parse_start_symbol_overrides": "every non-terminal, in the sized and split spaces"}
 
 
 def shards(tier):
@@ -94,7 +103,10 @@ def shards(tier):
 
 
 # ------------------------------------------------------------------------------------ one case
-def check_grammar(cfg, start, prods, inputs, acc, modes=(True, False)):
+def check_grammar(cfg, start, prods, inputs, acc, modes=(True, False), overrides=(), only_start=False):
+    """One case.  ``overrides``: non-terminals additionally handed to parse as ``start_symbol_name``
+    (every input again); ``only_start``: replay of one recorded parse (no default-start loop when the
+    recorded parse used an override)."""
     pm = dict(prods)
     terms = set(cfg.terms)
     feats = set()
@@ -102,11 +114,13 @@ def check_grammar(cfg, start, prods, inputs, acc, modes=(True, False)):
         feats.add("grammar:nullable")
     if cfg.key == "kw":
         feats.add("cfg:keywords-synonyms")
+    chain = G.chain_nullables(pm) if overrides else set()
     nontrivial = False
     verdicts = {}
     built = set()
     pmaps = {}
     n_valid = 0
+    starts = ([] if only_start else [None]) + [x for x in overrides if x != start or only_start]
     for smart in modes:
         mode = "smart" if smart else "full"
         with H.Watchdog():
@@ -135,49 +149,64 @@ def check_grammar(cfg, start, prods, inputs, acc, modes=(True, False)):
             except Exception:  # noqa  (statistics only)
                 pass
             verdict = []
-            for toks in inputs:
-                try:
-                    r, root = H.parse(p, cfg, toks)
-                except H.Abort:
-                    r, root = "abort:watchdog", None
-                acc.trans()
-                if r != "tree":
-                    feats.add("parse:" + r)
-                    verdict.append(r[0])
-                    if r.startswith("abort"):
-                        break      # a grammar the parser does not terminate on: C03's business
-                    continue
-                verdict.append("T")
-                feats.add("parse:tree")
-                n_valid += 1
-                mon = H.MON
-                if mon.rollbacks:
-                    feats.add("parse:rollback")
-                    nontrivial = True
-                if mon.suffix_pushes:
-                    feats.add("parse:through-suffix-symbol")
-                    nontrivial = True
-                bad = G.validate_tree(root, pm, terms, start, toks)
-                shape = None
-                try:
-                    shape = G.tree_shape(root)
-                    if G.count_empty_nodes(shape):
-                        feats.add("tree:empty-production-node")
+            for pstart in starts:
+                root_symbol = start if pstart is None else pstart
+                tag = "parse:" if pstart is None else "start-override:"
+                for toks in inputs:
+                    try:
+                        r, root = H.parse(p, cfg, toks, start_symbol=pstart)
+                    except H.Abort:
+                        r, root = "abort:watchdog", None
+                    acc.trans()
+                    if r != "tree":
+                        feats.add(tag + r)
+                        if pstart is None:
+                            verdict.append(r[0])
+                        if r.startswith("abort"):
+                            break      # a grammar the parser does not terminate on: C03's business
+                        continue
+                    if pstart is None:
+                        verdict.append("T")
+                    feats.add(tag + ("tree" if pstart is None else "returned-tree"))
+                    n_valid += 1
+                    mon = H.MON
+                    if mon.rollbacks:
+                        feats.add("parse:rollback")
                         nontrivial = True
-                except Exception:  # noqa
-                    pass
-                if bad is not None:
-                    case = G.to_case(cfg, start, prods, smart=smart, input=[list(t) for t in toks])
-                    acc.violation("C01:" + bad[0], case,
-                                  f"parse({cfg.text(toks)!r}) returned a tree that is not a derivation of the "
-                                  f"user grammar {G.show(prods)} (smart_factorization={smart}): {bad[1]}",
-                                  repr(shape), "a derivation tree of the user grammar whose leaves are "
-                                  + repr([list(t) for t in toks]))
+                    if mon.suffix_pushes:
+                        feats.add("parse:through-suffix-symbol")
+                        nontrivial = True
+                    bad = G.validate_tree(root, pm, terms, root_symbol, toks)
+                    shape = None
+                    try:
+                        shape = G.tree_shape(root)
+                        if G.count_empty_nodes(shape):
+                            feats.add("tree:empty-production-node")
+                            nontrivial = True
+                        if pstart is not None and chain and G.empty_chain_node_at_end(shape, chain):
+                            feats.add("start-override:nullable-by-chain-at-end")
+                    except Exception:  # noqa
+                        pass
+                    if bad is not None:
+                        case = G.to_case(cfg, start, prods, smart=smart, input=[list(t) for t in toks])
+                        sig = "C01:" + bad[0]
+                        how = ""
+                        if pstart is not None:
+                            case["parse_start"] = pstart
+                            sig += ":start-override"
+                            how = f", start_symbol_name={pstart!r}"
+                        acc.violation(sig, case,
+                                      f"parse({cfg.text(toks)!r}{how}) returned a tree that is not a derivation "
+                                      f"from {root_symbol} in the user grammar {G.show(prods)} "
+                                      f"(smart_factorization={smart}): {bad[1]}",
+                                      repr(shape), f"a derivation tree rooted at {root_symbol} whose leaves are "
+                                      + repr([list(t) for t in toks]))
             verdicts[smart] = "".join(verdict)
     if len(pmaps) == 2 and pmaps[True] != pmaps[False]:
         feats.add("grammar:modes-differ-in-productions")
     if len(verdicts) == 2 and verdicts[True] != verdicts[False]:
         feats.add("modes:verdicts-differ")
+
     def label(m):
         v = verdicts.get(m, "")
         if m not in built:
@@ -185,6 +214,10 @@ def check_grammar(cfg, start, prods, inputs, acc, modes=(True, False)):
         return "accepts" if "T" in v else ("aborted" if "a" in v else "rejects-all")
     outcome = "/".join(label(m) for m in modes)
     return sorted(feats), nontrivial, outcome, n_valid
+
+
+# spaces in which every non-terminal is additionally used as start_symbol_name of parse
+_OVERRIDE_KINDS = ("sized", "split")
 
 
 def _grammars(tier, shard):
@@ -203,10 +236,12 @@ def _grammars(tier, shard):
 
 def run_shard(shard, tier, seed, acc):
     cfg, inputs, gen = _grammars(tier, tuple(shard))
-    fam = "space:" + _SPACES[tier][shard[0]][0] + ":" + str(_SPACES[tier][shard[0]][2])
+    sp = _SPACES[tier][shard[0]]
+    fam = "space:" + sp[0] + ":" + str(sp[2])
+    overrides = tuple(sp[1]) if sp[0] in _OVERRIDE_KINDS else ()
     n = 0
     for prods in gen:
-        feats, nt, out, n_valid = check_grammar(cfg, "E", prods, inputs, acc)
+        feats, nt, out, n_valid = check_grammar(cfg, "E", prods, inputs, acc, overrides=overrides)
         acc.case(nontrivial=nt, features=feats + [fam], outcome=out, traces=n_valid)
         n += 1
         if nt and n % 211 == 0:
@@ -218,7 +253,9 @@ def run_shard(shard, tier, seed, acc):
 def replay(case, acc):
     cfg, start, prods = G.from_case(case)
     inputs = [tuple(tuple(t) for t in case["input"])]
-    feats, nt, out, n_valid = check_grammar(cfg, start, prods, inputs, acc, modes=(case["smart"],))
+    ps = case.get("parse_start")
+    feats, nt, out, n_valid = check_grammar(cfg, start, prods, inputs, acc, modes=(case["smart"],),
+                                            overrides=(ps,) if ps else (), only_start=bool(ps))
     acc.case(nontrivial=nt, features=feats, outcome=out, traces=n_valid)
 
 
